@@ -865,3 +865,7 @@ impl LocalDestination {
         Ok(())
     }
 }
+
+#[cfg(kani)]
+#[path = "/verif/harness/backend_local_destination.rs"]
+pub(crate) mod verif_harness;
